@@ -429,7 +429,14 @@ func runConnectToCase(run *ev.Run, cs ctCase) {
 	atk := vegeta.NewAttacker(opts...)
 	defer atk.Stop()
 	dial := tr.DialContext
-	addrs := cs.Map[cs.Src]
+	// every mapped source is dialled, in a periodic pattern (as a static
+	// targeter cycling through its targets produces); each source must rotate
+	// over its own replacements independently of the others
+	var srcs []string
+	for k := range cs.Map {
+		srcs = append(srcs, k)
+	}
+	sort.Strings(srcs)
 	viol := func(clause, class, note string, extra map[string]any) {
 		d := map[string]any{"case": cs, "note": note}
 		for k, v := range extra {
@@ -438,7 +445,11 @@ func runConnectToCase(run *ev.Run, cs ctCase) {
 		run.Violate(fmt.Sprintf("C18/%s/%s", clause, class), fmt.Sprintf("%+v: %s", cs, note), d)
 	}
 	base := time.Now()
-	ops := make([][]ctOp, cs.Callers)
+	type srcOp struct {
+		ctOp
+		Src string `json:"src"`
+	}
+	ops := make([][]srcOp, cs.Callers)
 	var wg sync.WaitGroup
 	start := make(chan struct{})
 	per := cs.Dials / cs.Callers
@@ -448,13 +459,14 @@ func runConnectToCase(run *ev.Run, cs ctCase) {
 			defer wg.Done()
 			<-start
 			for i := 0; i < per; i++ {
+				src := srcs[(i+c)%len(srcs)]
 				var a string
 				ctx, cancel := context.WithCancel(context.WithValue(context.Background(), ctSlotKey{}, &a))
 				t0 := time.Since(base)
-				_, _ = dial(ctx, "tcp", cs.Src)
+				_, _ = dial(ctx, "tcp", src)
 				t1 := time.Since(base)
 				cancel()
-				ops[c] = append(ops[c], ctOp{Client: c, Call: int64(t0), Return: int64(t1), Addr: a})
+				ops[c] = append(ops[c], srcOp{ctOp{Client: c, Call: int64(t0), Return: int64(t1), Addr: a}, src})
 			}
 		}(c)
 	}
@@ -466,70 +478,78 @@ func runConnectToCase(run *ev.Run, cs ctCase) {
 	if got != "192.0.2.77:4242" {
 		viol("unmapped-address-changed", "connect-to", fmt.Sprintf("dial to unmapped 192.0.2.77:4242 went to %v", got), nil)
 	}
-	var all []ctOp
+	bySrc := map[string][]ctOp{}
+	total := 0
 	for _, l := range ops {
-		all = append(all, l...)
+		for _, o := range l {
+			bySrc[o.Src] = append(bySrc[o.Src], o.ctOp)
+			total++
+		}
 	}
 	run.Eval(1)
 	run.Count("connect_to_histories", 1)
-	run.Count("connect_to_dials", int64(len(all)))
-	counts := map[string]int{}
-	for _, o := range all {
-		counts[o.Addr]++
-	}
-	lo, hi := len(all)/len(addrs), (len(all)+len(addrs)-1)/len(addrs)
-	for _, a := range addrs {
-		if counts[a] < lo || counts[a] > hi {
-			viol("rotation-uneven", map[bool]string{true: "sequential", false: "concurrent"}[cs.Callers == 1],
-				fmt.Sprintf("%d dials to %s over %d replacements: %s used %d times (want %d..%d); counts %v", len(all), cs.Src, len(addrs), a, counts[a], lo, hi, counts),
-				map[string]any{"counts": counts})
-			return
+	run.Count("connect_to_dials", int64(total))
+	multi := map[bool]string{true: "several-mapped-sources", false: "one-mapped-source"}[len(srcs) > 1]
+	for _, src := range srcs {
+		all := bySrc[src]
+		addrs := cs.Map[src]
+		if len(all) == 0 {
+			continue
 		}
-	}
-	for a := range counts {
-		found := false
-		for _, x := range addrs {
-			if x == a {
-				found = true
-			}
+		// in call order for the sequential checks
+		sort.SliceStable(all, func(i, j int) bool { return all[i].Call < all[j].Call })
+		counts := map[string]int{}
+		for _, o := range all {
+			counts[o.Addr]++
 		}
-		if !found {
-			viol("dial-to-unmapped-replacement", "connect-to", fmt.Sprintf("dial to %s went to %q, not one of %v", cs.Src, a, addrs), nil)
-			return
-		}
-	}
-	if cs.Callers == 1 {
-		idx := map[string]int{}
-		for i, a := range addrs {
-			idx[a] = i
-		}
-		for i := 1; i < len(all); i++ {
-			if idx[all[i].Addr] != (idx[all[i-1].Addr]+1)%len(addrs) {
-				viol("rotation-order", "sequential", fmt.Sprintf("dial %d went to %s right after %s (replacements %v)", i, all[i].Addr, all[i-1].Addr, addrs), nil)
+		lo, hi := len(all)/len(addrs), (len(all)+len(addrs)-1)/len(addrs)
+		for _, a := range addrs {
+			if counts[a] < lo || counts[a] > hi {
+				viol("rotation-uneven", map[bool]string{true: "sequential", false: "concurrent"}[cs.Callers == 1]+"/"+multi,
+					fmt.Sprintf("%d dials to %s over %d replacements: %s used %d times (want %d..%d); counts %v", len(all), src, len(addrs), a, counts[a], lo, hi, counts),
+					map[string]any{"counts": counts, "src": src})
 				return
 			}
 		}
-	} else if len(all) <= 200 {
-		pops := make([]porcupine.Operation, len(all))
-		for i, o := range all {
-			pops[i] = porcupine.Operation{ClientId: o.Client, Call: o.Call, Return: o.Return, Output: o.Addr}
+		for a := range counts {
+			if !contains(addrs, a) {
+				viol("dial-to-unmapped-replacement", "connect-to", fmt.Sprintf("dial to %s went to %q, not one of %v", src, a, addrs), nil)
+				return
+			}
 		}
-		switch porcupine.CheckOperationsTimeout(rotationModel(addrs), pops, 20*time.Second) {
-		case porcupine.Illegal:
-			viol("rotation-not-linearizable", "concurrent", fmt.Sprintf("%d concurrent dials by %d callers over %v are not a linearization of strict rotation", len(all), cs.Callers, addrs), map[string]any{"history": all})
-			return
-		case porcupine.Unknown:
-			run.Inconclusive("porcupine timeout on a connect-to history")
-		default:
-			run.Count("connect_to_histories_linearizable", 1)
+		if cs.Callers == 1 {
+			idx := map[string]int{}
+			for i, a := range addrs {
+				idx[a] = i
+			}
+			for i := 1; i < len(all); i++ {
+				if idx[all[i].Addr] != (idx[all[i-1].Addr]+1)%len(addrs) {
+					viol("rotation-order", "sequential/"+multi, fmt.Sprintf("dial %d to %s went to %s right after %s (replacements %v)", i, src, all[i].Addr, all[i-1].Addr, addrs), nil)
+					return
+				}
+			}
+		} else if len(all) <= 200 {
+			pops := make([]porcupine.Operation, len(all))
+			for i, o := range all {
+				pops[i] = porcupine.Operation{ClientId: o.Client, Call: o.Call, Return: o.Return, Output: o.Addr}
+			}
+			switch porcupine.CheckOperationsTimeout(rotationModel(addrs), pops, 20*time.Second) {
+			case porcupine.Illegal:
+				viol("rotation-not-linearizable", "concurrent/"+multi, fmt.Sprintf("%d concurrent dials to %s by %d callers over %v are not a linearization of strict rotation", len(all), src, cs.Callers, addrs), map[string]any{"history": all, "src": src})
+				return
+			case porcupine.Unknown:
+				run.Inconclusive("porcupine timeout on a connect-to history")
+			default:
+				run.Count("connect_to_histories_linearizable", 1)
+			}
 		}
 	}
 	b, _ := json.Marshal(cs)
 	run.Distinct(string(b))
-	if cs.Callers > 1 && len(all) <= 40 {
-		run.Sample(map[string]any{"connect_to_case": cs, "history": all})
+	if cs.Callers > 1 && total <= 40 {
+		run.Sample(map[string]any{"connect_to_case": cs, "history_by_source": bySrc})
 	}
-	run.Class(fmt.Sprintf("connect-to/k%d/callers-%s", len(addrs), map[bool]string{true: "1", false: "many"}[cs.Callers == 1]))
+	run.Class(fmt.Sprintf("connect-to/sources-%d/callers-%s", len(srcs), map[bool]string{true: "1", false: "many"}[cs.Callers == 1]))
 }
 
 // ---- race freedom through real attacks against loopback listeners -----------------
@@ -669,7 +689,15 @@ func c18Child(c *Ctx) int {
 			for j := 0; j < k; j++ {
 				repl = append(repl, fmt.Sprintf("10.9.%d.%d:%d", i%200, j+1, 8000+j))
 			}
-			cs := ctCase{Src: "mapped.verif.test:80", Map: map[string][]string{"mapped.verif.test:80": repl, "other.verif.test:81": {"10.1.1.1:1"}},
+			m := map[string][]string{"mapped.verif.test:80": repl}
+			for e := 0; e < []int{0, 1, 1, 2}[rng.Intn(4)]; e++ { // further mapped sources with their own replacement lists
+				var r2 []string
+				for j := 0; j < 1+rng.Intn(6); j++ {
+					r2 = append(r2, fmt.Sprintf("10.8.%d.%d:%d", e, j+1, 9000+j))
+				}
+				m[fmt.Sprintf("other%d.verif.test:8%d", e, e)] = r2
+			}
+			cs := ctCase{Src: "mapped.verif.test:80", Map: m,
 				Callers: []int{1, 1, 2, 4, 16}[rng.Intn(5)], WithDNS: rng.Intn(3) == 0}
 			cs.Dials = []int{7, 30, 64, 120, 1000}[rng.Intn(5)]
 			if cs.Callers > 1 && rng.Intn(2) == 0 {
